@@ -14,7 +14,10 @@ use crate::{
 };
 use nohash_hasher::{BuildNoHashHasher, NoHashHasher};
 use std::hash::{BuildHasherDefault, Hash, Hasher};
+#[cfg(not(adlt_verif_sched))]
 use std::sync::mpsc::Receiver;
+#[cfg(adlt_verif_sched)]
+use shuttle::sync::mpsc::Receiver;
 
 pub type LifecycleId = u32;
 pub type LifecycleItem = Lifecycle; // Box<Lifecycle>; V needs to be Eq+Hash+ShallowCopy (and Send?)
